@@ -80,19 +80,19 @@ CHECKS["C16"] = ("walletsim", "exploration",
   "Blocks pay harness-derived addresses of the four default scopes and both branches with every index at most W-1 beyond the lowest index not yet paid in earlier blocks (jumps to the last index of the window are favoured), later blocks spend recovered outputs, block times have gaps of seconds to days, the birthday is at or before the first paying block; the restore runs locked or unlocked and is interrupted (Stop + reopen, or a lock request) at seeded scheduling points. Afterwards every paid address must be known and marked used, every paying / spending transaction recorded, the spendable set and balance equal the chain's, every branch's key count above the highest used index, and the first filtered block not later than the first paying block.",
   "invalid BIP32 children (probability 2^-127) cannot be produced; chains longer than the 2000-block batch are generated in 1 run of 25. " + TB, "DESIGN.md §6 C16")
 
-CHECKS["C10"] = ("ledgersim", "fault_enumeration",
-  "deterministic simulation with enumerated fault positions: for every sampled mutating operation of the real transaction store (and, where landed, the address manager) reached by a seeded history, the operation is executed once per mutating database call k with that call failing, once with the commit failing, and once fault-free; pre/post database dumps and the query set are compared with the pre-state and with the reference model",
-  "Host histories are the C01 mix (mempool, blocks, rollbacks, RBF, abandon, reconnect, leases). For each enumerated operation instance and each k = 1..n (n = number of mutating database calls of that operation, read off as the last k that fired) the k-th call fails: the operation must report an error (or have its full effect), the rolled-back database dump and the balance / unspent / unconfirmed / lease / details queries must equal the pre-state through the same Store object, a failing commit likewise, and the final fault-free attempt must succeed with exactly the model's effect. fault_enumeration: all k of every selected operation instance (1 in 4 in quick, all in thorough); operations and states are sampled. Evidence lists instances and k positions per operation kind.",
-  "this check currently enumerates the transaction store's operations; faults below bbolt are not injected. " + TB,
+CHECKS["C10"] = ("ledgersim+addrsim", "fault_enumeration",
+  "deterministic simulation with enumerated fault positions, two simulations run side by side (wtxmgr.Store in ledgersim, waddrmgr.Manager in addrsim): for every sampled mutating operation of the real transaction store and of the real address manager reached by a seeded history, the operation is executed once per mutating database call k with that call failing, once with the commit failing, and once fault-free; pre/post database dumps and the query set are compared with the pre-state and with the reference model",
+  "Host histories are the C01 mix (mempool, blocks, rollbacks, RBF, abandon, reconnect, leases). For each enumerated operation instance and each k = 1..n (n = number of mutating database calls of that operation, read off as the last k that fired) the k-th call fails: the operation must report an error (or have its full effect), the rolled-back database dump and the balance / unspent / unconfirmed / lease / details queries must equal the pre-state through the same Store object, a failing commit likewise, and the final fault-free attempt must succeed with exactly the model's effect. fault_enumeration: all k of every selected operation instance (1 in 4 in quick, all in thorough); operations and states are sampled. Evidence lists instances and k positions per operation kind. Address manager (addrsim/c10.go): every read-write transaction of a selected operation (next/extend addresses, new account, rename, imports of keys/scripts/xpub accounts, mark-used, passphrase changes public and private, SetSyncedTo, SetBirthday, ConvertToWatchingOnly, new scoped manager) is attempted with the k-th mutating call failing for k = 1..n, then with the commit failing, then fault-free; after each failed attempt the namespace dump must equal the pre-state, the RUNNING manager must answer the restart observer's ~200 queries, its lock state and its passphrases as before the operation (memory not ahead of disk), a fault must not be swallowed, and the fault-free retry must succeed with the same result as a run without faults.",
+  "faults below bbolt (torn pages) are not injected: bbolt is the durable substrate and is exercised for C11. Three address-manager signatures whose root causes are recorded under C08 are listed as known findings. " + TB,
   "DESIGN.md §6 C10")
 
 ADDR_TECH = "deterministic simulation: a real waddrmgr.Manager on bbolt driven by seeded operation histories (next/extend/derive/lookup/mark-used, lock/unlock with right and near-miss passphrases, passphrase changes, accounts incl. imported xpub accounts and custom scopes, key/script imports, sync state, restarts and crash-restarts from commit images, deliberately rolled-back transactions, injected commit/write failures)"
 CHECKS["C03"] = ("addrsim", "exploration", ADDR_TECH + "; oracle = an independent BIP32 implementation (keyoracle) written in the harness",
   "Every address object returned or looked up is compared with keyoracle (address, type, public key, derivation path and fingerprint, internal flag, account, imported/compressed flags); whenever the model says unlocked and not watch-only its private key must be the oracle's and a signature made with it must verify — for objects returned at issue time, looked up later, created while locked, created by Extend, and loaded after restart; indices per branch consecutive without repetition; imported keys and scripts byte-identical; a second wallet created from the same seed issues the same addresses. keyoracle is cross-checked against hdkeychain and BIP32 test vector 1 in its own unit test.",
   "invalid BIP32 children cannot be produced; accounts created after wallet creation derive from the stored (padded) coin-type key, which the oracle models. " + TB, "DESIGN.md §3.5, §6 C03")
-CHECKS["C04"] = ("addrsim", "exploration", ADDR_TECH + "; multi-pattern scan of the database file image at commit boundaries for every secret the run produced",
+CHECKS["C04"] = ("addrsim+walletsim", "exploration", ADDR_TECH + "; multi-pattern scan of the database file image at commit boundaries for every secret the run produced",
   "The harness keeps the run's secret set (passphrases, seed, master/coin-type/account extended private keys raw and serialised, every derived and imported private key raw and WIF, imported secret scripts) and quasi-secret set (extended public keys, public keys, hash160s, address strings) from keyoracle; commit-boundary images (every commit in thorough, 1 in 8 plus all create/import/passphrase/account/convert commits in quick) are scanned, free pages included, and every stored field is additionally decrypted under the PUBLIC crypto key and searched for secrets. After ConvertToWatchingOnly on a copy the reopened copy must resolve every address, refuse Unlock and every private accessor, and hold no secret.",
-  "patterns shorter than 16 bytes are not used (chance matches); no transaction is ever recorded in addrsim, so quasi-secrets must never appear. " + TB, "DESIGN.md §6 C04")
+  "patterns shorter than 16 bytes are not used (chance matches); no transaction is ever recorded in addrsim, so quasi-secrets must never appear. A second simulation (walletsim/c04w.go) converts through the wallet's own entry point Wallet.InitAccounts(scope, watchOnly=true, n) after issuing addresses / funding, reopens, and checks that every issued address is still known, no passphrase unlocks, no private accessor answers and the image holds none of the run's secrets. " + TB, "DESIGN.md §6 C04")
 CHECKS["C05"] = ("addrsim", "exploration", ADDR_TECH + "; access-control model over {locked, unlocked, watch-only} plus an overlay probe that hands out aliases of the live clear-text key buffers",
   "After every operation every private-material accessor is probed on managed objects; in locked / watch-only state each must fail with the locked / watching-only error class; the current private passphrase always unlocks, eight near-miss variants never do and leave the manager locked; passphrase changes take effect immediately and after restart. Memory: aliases of master, crypto, account, address and script clear-text buffers and of the derived-key cache captured while unlocked must read all-zero after Lock and after a failed Unlock, and a fresh enumeration must report no live secret.",
   "the memory probe is an add-only overlay file (harness/probes/waddrmgr); the Go garbage collector may keep copies the probe cannot see. " + TB, "DESIGN.md §6 C05")
@@ -108,6 +108,7 @@ def main():
     checks = []
     for pid in sorted(CHECKS):
         eng, level, tech, text, note, ref = CHECKS[pid]
+        eng = eng.split("+")[0]
         checks.append({
             "property_id": pid,
             "quick_cmd": f"./check {pid} quick",
@@ -121,7 +122,8 @@ def main():
         })
     engines = {}
     for pid, v in CHECKS.items():
-        engines.setdefault(v[0], []).append(pid)
+        for e in v[0].split("+"):
+            engines.setdefault(e, []).append(pid)
     props = [json.loads(l)["id"] for l in open(os.path.join(ROOT, "properties.jsonl"))]
     na = [x for x in NOT_APPLICABLE if x["property_id"] not in CHECKS]
     listed = set(CHECKS) | {x["property_id"] for x in na}
